@@ -16,19 +16,18 @@ def run_mc(prop, mc, tier, wd, seed):
     simulate = (mc.get('simulate') or {}).get(tier)
     if simulate:
         extra += ['-seed', str(seed)]
-    rc, out = vlib.run_tlc(os.path.join(SPEC, 'mc'), module, cfg, workers=mc.get('workers', 8), heap=mc.get('heap', '6g'),
-                           timeout=mc.get('timeout', 3600), simulate=simulate, depth=mc.get('depth'), extra=extra,
-                           env=mc.get('env'), jit='c1' if tier == 'quick' else mc.get('jit', 'full'))
+    raw = os.path.join(wd, '%s.tlcout' % cfg)
+    rc, _ = vlib.run_tlc(os.path.join(SPEC, 'mc'), module, cfg, workers=mc.get('workers', 8), heap=mc.get('heap', '6g' if tier == 'quick' else '12g'),
+                         timeout=mc.get('timeout', 3600 if tier == 'quick' else 7200), simulate=simulate, depth=mc.get('depth'), extra=extra,
+                         env=mc.get('env'), jit='c1' if tier == 'quick' else mc.get('jit', 'full'), out_path=raw)
     wall = time.time() - t0
-    generated, distinct = vlib.parse_stats(out)
-    ok = 'No error has been found' in out or (simulate and 'states checked' in out and 'Error' not in out)
-    if not ok:
-        tail = '\n'.join(l for l in out.splitlines() if not l.startswith('<<"BEH"'))[-3000:]
-        raise vlib.ToolError('model checking of %s/%s did not complete cleanly (specification-level invariant violated or TLC error):\n%s' % (module, cfg, tail))
+    # behaviours are streamed to the .beh file; everything else (a few hundred lines) is kept for statistics / errors
     beh_path = os.path.join(wd, '%s.beh' % cfg)
     n = 0
-    with open(beh_path, 'w') as f:
-        for l in out.splitlines():
+    rest = []
+    with open(raw, errors='replace') as fi, open(beh_path, 'w') as f:
+        for l in fi:
+            l = l.rstrip('\n')
             if l.startswith('<<"BEH", "') and l.endswith('">>'):
                 body = l[len('<<"BEH", "'):-len('">>')]
                 try:
@@ -38,6 +37,14 @@ def run_mc(prop, mc, tier, wd, seed):
                 n += 1
                 j['id'] = 'mc:%s:%d' % (cfg.replace('.cfg', ''), n)
                 f.write(json.dumps(j) + '\n')
+            elif len(rest) < 20000:
+                rest.append(l)
+    os.remove(raw)
+    out = '\n'.join(rest)
+    generated, distinct = vlib.parse_stats(out)
+    ok = rc == 0 and ('No error has been found' in out or (simulate and 'states checked' in out and 'Error' not in out))
+    if not ok:
+        raise vlib.ToolError('model checking of %s/%s did not complete cleanly (specification-level invariant violated or TLC error):\n%s' % (module, cfg, out[-3000:]))
     cases = None
     if n:
         cases = os.path.join(wd, '%s.cases' % cfg)
